@@ -151,7 +151,9 @@ def expected_from_lean(ck, cases):
         f = o.split("\t")
         g = mp.split("\t")
         c.parse = f[0]
-        if f[0] != "ok":
+        if f[0] == "unavailable":
+            c.parse = "ok"          # the in-process parser cannot be asked on this tree: let the compiler decide
+        elif f[0] != "ok":
             c.parse_msg = unhexs(f[1]) if f[0] == "err" and len(f) > 1 else f[0]
         if g[0] != "accept":
             # outside the pattern language (the grammar rejects it): nothing to specify
